@@ -173,7 +173,7 @@ func c09Ramp(r *Run, site *cutSite) {
 	}
 	g := staticCallee(&rampCall.Call)
 	ff := computeFacts(g)
-	bp := &bprover{ff: ff}
+	bp := &bprover{ff: ff, descend: r.Prog.IsRuleSite}
 
 	// --- operand discovery inside the ramp function
 	var spec *ssa.Parameter
@@ -235,11 +235,14 @@ func c09Ramp(r *Run, site *cutSite) {
 		v := ret.Results[0]
 		rpos := r.Prog.Pos(instrPos(ret))
 		fs := ff.At(ret.Block())
-		capOK := bp.le(v, fs, isMaxParallel, true, 0)
+		capOK := bp.le(v, bp.root(), fs, func(x ssa.Value, fr *bframe) bool { return fr.up == nil && isMaxParallel(x) }, true, 0)
 		r.Check("C09.R2", fmt.Sprintf("result <= max(0, MaxParallelPodCreation) at return-%d", i+1), rpos, shortFunc(g),
 			"the ramp result never exceeds *MaxParallelPodCreation", capOK, "proved from the clamp structure of "+v.Name())
 		var seen []string
-		rampOK := bp.le(v, fs, func(x ssa.Value) bool {
+		rampOK := bp.le(v, bp.root(), fs, func(x ssa.Value, fr *bframe) bool {
+			if fr.up != nil {
+				return false
+			}
 			p, ok := polyOf(x, leaf, 0)
 			if !ok {
 				return false
